@@ -302,3 +302,17 @@ Definition C06_full_no_failure_terminates : Prop :=
      completes (chain_net sp true None None) (chain_init sp true None None) (chain_main sp) (ch_N sp)) /\
   (forall sp : fan_spec, valid_fan sp ->
      completes (fan_net sp true None None) (fan_init sp true None None) (fan_main sp) (fn_N sp)).
+
+(* general plugin DAGs (several dependencies per plugin, diamonds, any number of multi-output plugins): stated over
+   the decidable description Model/C06Dag.v (one sender per mailbox, one reader per subscriber slot, acyclic,
+   capacities >= 1, iter kills and joins everything, all three repairs); every stage is 1:1 so no chunk lag has to be
+   bounded by the capacities.  NOT proved: the shutdown half is C06_noticed_failure_shuts_down, the exception identity
+   C06_caller_gets_original_exception; the propagation half (the failure always reaches the caller's read) is covered
+   by the correspondence (diamonds under the controlled scheduler) only.  The harness evaluates dag_ok_b (extracted)
+   on the network derived from every real processor built from hand-made components. *)
+From SV Require Import Model.C06Dag.
+Definition C06_full_threaded_dag : Prop :=
+  forall (nt : net) (boxes : list mbox) (threads : list thread) (main N ft fp c : nat),
+    dag_ok_b nt (mkSt boxes threads) N main = true -> init_ok_b boxes threads = true ->
+    n_fault nt = Some (ft, fp, c) -> fault_ok_b nt (mkSt boxes threads) N = true ->
+    failure_reaches_caller nt (ninit nt boxes threads) main N c.
